@@ -185,7 +185,8 @@ UNKNOWN_FILES = [("GRID", "coordinates", ["x", "y", "z", "r"]),
                  ("ML_BSSN", "ML_dtlapse", ["A"]),
                  ("ML_BSSN", "ML_log_confac", ["phi"]),
                  ("TMUNUBASE", "stress_energy_scalar", ["eTtt"]),
-                 ("GRHYDRO", "scon", ["scon[0]", "scon[1]", "scon[2]"])]
+                 ("GRHYDRO", "scon", ["scon[0]", "scon[1]", "scon[2]"]),
+                 ("MAXWELL", "fields", ["E", "Ex", "Ey"])]
 
 
 @st.composite
@@ -341,15 +342,19 @@ class Hist:
         self.cache = {}        # r -> content truth at caching time
         self.cat = {}          # r -> per-restart truth at cataloguing time
         self.file_exists = False
+        self.returned = {}     # per-restart part of the last iterations()
         self.ncat_calls = 0
         self.grown = 0
         self.nontrivial = bool(words_in(self.sim, *case["loc"]))
-        feats = []
-        if "restart" in self.simloc + self.sim:
-            feats.append("path~restart")
-        if any(substr_var(s) for s in self.pool):
-            feats.append("substr-var")
-        self.tag = "[" + ",".join(feats) + "]" if feats else ""
+        # discriminator tags naming the case feature a failure kind can
+        # depend on (keeps independent root causes in separate buckets)
+        self.tag_path = ("[path~restart]"
+                         if "restart" in self.simloc + self.sim else "")
+        self.tag = ("[substr-var]" if any(substr_var(s) for s in self.pool)
+                    else "")
+
+    def rtag(self, exc):
+        return self.tag_path if isinstance(exc, IndexError) else self.tag
 
     # -- directory ---------------------------------------------------------
     def add(self):
@@ -392,6 +397,7 @@ class Hist:
         if rs != sorted(want_set):
             note.fail(f"{where}:restart-set{tag}",
                       dict(got=[str(k) for k in rs], want=sorted(want_set)))
+            return None      # model and directory state have diverged
         if ("overall" in g) != with_overall:
             note.fail(f"{where}:overall-key{tag}",
                       dict(present="overall" in g, want=with_overall))
@@ -447,7 +453,7 @@ class Hist:
                                               verbose=False))
             except Exception as e:  # noqa: BLE001
                 self.note.fail(
-                    f"fresh-scan:raises:{type(e).__name__}{self.tag}",
+                    f"fresh-scan:raises:{type(e).__name__}{self.rtag(e)}",
                     dict(error=str(e)[:200]))
                 return
         finally:
@@ -491,7 +497,7 @@ class Hist:
         if len(self.cur) >= 2 and self.ncat_calls >= 2:
             self.nontrivial = True
         want = self.catalogue_new(skip_last)
-        where = "read_iterations" if via_read else "iterations"
+        where = "iterations"   # read_iterations delegates when no file
 
         def call():
             with quiet():
@@ -509,9 +515,9 @@ class Hist:
                       dict(error=str(e)[:200]))
             return False
         except Exception as e:  # noqa: BLE001
-            note.fail(f"{where}:raises:{type(e).__name__}{tag}",
+            note.fail(f"{where}:raises:{type(e).__name__}{self.rtag(e)}",
                       dict(error=str(e)[:200], skip_last=skip_last,
-                           call=self.ncat_calls))
+                           call=self.ncat_calls, via_read_iterations=via_read))
             return False
         if want is None:
             note.fail(f"{where}:nothing-to-process-not-raised{tag}",
@@ -527,9 +533,11 @@ class Hist:
                 back = norm(R.read_iterations(self.param))
         except Exception as e:  # noqa: BLE001
             note.fail(f"iterations.txt:parse-back:raises:"
-                      f"{type(e).__name__}{tag}", dict(error=str(e)[:200]))
+                      f"{type(e).__name__}{self.rtag(e)}",
+                      dict(error=str(e)[:200]))
             return False
         mem = {k: v for k, v in g.items() if k != "overall"}
+        self.returned = mem
         if back != mem:
             bad = sorted({str(k) for k in set(back) | set(mem)
                           if back.get(k) != mem.get(k)})
@@ -546,8 +554,9 @@ class Hist:
                 again = norm(R.iterations(self.param, skip_last=skip_last,
                                           verbose=False))
         except Exception as e:  # noqa: BLE001
-            note.fail(f"iterations:repeat:raises:{type(e).__name__}{tag}",
-                      dict(error=str(e)[:200], skip_last=skip_last))
+            note.fail(f"iterations:raises:{type(e).__name__}{self.rtag(e)}",
+                      dict(error=str(e)[:200], skip_last=skip_last,
+                           call="immediate repeat of the previous call"))
             return False
         if again != g:
             note.fail(f"iterations:repeat:differs{tag}",
@@ -564,9 +573,19 @@ class Hist:
                 got = R.read_iterations(self.param, skip_last=skip_last)
         except Exception as e:  # noqa: BLE001
             self.note.fail(f"read_iterations:raises:{type(e).__name__}"
-                           f"{self.tag}", dict(error=str(e)[:200]))
+                           f"{self.rtag(e)}", dict(error=str(e)[:200]))
             return False
-        self.check_catalogue(got, set(self.cat), "read_iterations", False)
+        # the text file parses back to what iterations() returned in memory
+        g = norm(got) if isinstance(got, dict) else got
+        if g != self.returned:
+            fields = sorted({f for k in set(g) & set(self.returned)
+                             for f in set(g[k]) | set(self.returned[k])
+                             if g[k].get(f) != self.returned[k].get(f)}) \
+                if isinstance(g, dict) else []
+            f0 = fields[0] if fields else "restart-set"
+            f0 = "rl" if f0.startswith("rl = ") else f0.replace(" ", "-")
+            self.note.fail(f"read_iterations:parse-back:{f0}{self.tag}",
+                           dict(file=g, memory=self.returned))
         return True
 
     def op_get_content(self, ridx, overwrite):
@@ -581,7 +600,7 @@ class Hist:
                                     overwrite=overwrite, verbose=False)
                 again = R.get_content(self.param, restart=r, verbose=False)
         except Exception as e:  # noqa: BLE001
-            note.fail(f"get_content:raises:{type(e).__name__}{tag}",
+            note.fail(f"get_content:raises:{type(e).__name__}{self.rtag(e)}",
                       dict(error=str(e)[:200]))
             return False
         if got != again:
@@ -621,7 +640,7 @@ def test_history(case, note):
                 note.cls("layout:components")
             if any(len(v) == 1 for v in s["levels"].values()):
                 note.cls("level:singleton")
-        if "substr-var" in h.tag:
+        if h.tag:
             note.cls("substr-var")
         for op in case["ops"]:
             name = op[0]
@@ -1206,7 +1225,9 @@ def generic_par(sim, exp2sign):
         _e("Carpet", "p1_ghost[1]", "int", "+3", indent="\t", sp2=""),
         _e("MoL", "p2_tol", "float", "-0.25", comment=" # tolerance = 1"),
         _e("MoL", "p3_k", "float-exp", "1.e-50"),
-        _e("MoL", "p4_big", "float-exp", "+2.5e+3", sp1="", sp2=""),
+        _e("MoL", "p4_big", "float-exp", "+2.5e3", sp1="", sp2=""),
+        _e("MoL", "p4_small", "float-exp", "2.5e-3"),
+        _e("MoL", "p4_neg", "float-exp", "-2e5"),
         _e("IOUtil", "p5_vars", "str", '"ADMBase::lapse x=y::z = 1"'),
         _e("IOUtil", "p6_num", "str", '"42"', comment="# Fake::q = 1"),
         _e("Carpet", "p7_poison", "bool", "yes"),
@@ -1322,11 +1343,19 @@ def test_fixture(case, note):
                                   dict(param=p["N" + c], ghost=ghost,
                                        shape=list(shape), restart=r, var=v))
                 break
-        with quiet():
-            first = norm(R.iterations(p, skip_last=True, verbose=False))
-            got = norm(R.iterations(p, skip_last=False, verbose=False))
-            again = norm(R.iterations(p, skip_last=False, verbose=False))
-            back = norm(R.read_iterations(p))
+        try:
+            with quiet():
+                first = norm(R.iterations(p, skip_last=True, verbose=False))
+                got = norm(R.iterations(p, skip_last=False, verbose=False))
+                again = norm(R.iterations(p, skip_last=False, verbose=False))
+                back = norm(R.read_iterations(p))
+                contents = [(R.get_content(p, restart=r, verbose=False),
+                             R.get_content(p, restart=r, overwrite=True,
+                                           verbose=False))
+                            for r in range(nrest)]
+        except Exception as e:  # noqa: BLE001
+            raise PropertyFailure(f"fixture:raises:{type(e).__name__}",
+                                  dict(error=str(e)[:300]))
         if sorted(k for k in first if k != "overall") != list(
                 range(nrest - 1)):
             note.fail("fixture:skip_last", dict(got=sorted(map(str, first))))
@@ -1347,10 +1376,7 @@ def test_fixture(case, note):
             if denote(segs) != union:
                 note.fail("fixture:overall", dict(level=k, got=segs))
         for r in range(nrest):
-            with quiet():
-                c1 = R.get_content(p, restart=r, verbose=False)
-                c2 = R.get_content(p, restart=r, overwrite=True,
-                                   verbose=False)
+            c1, c2 = contents[r]
             want = {k: sorted(v) for k, v in truth[r][1].items()}
             for c in (c1, c2):
                 if {k: sorted(v) for k, v in c.items()} != want:
@@ -1411,7 +1437,7 @@ def subchecks(tier):
         Sub("par", par_case(), test_par, 400 if q else 12000,
             generic=[generic_par("rl_arange_3D", False),
                      generic_par("my_restart_it", True)],
-            shards=6 if q else 16, max_rounds=6),
+            shards=6 if q else 16, max_rounds=6, shrink_quick=False),
         Sub("fixtures", None, test_fixture, 0,
             generic=[dict(fixture=f) for f in FIXTURES], shards=4),
     ]
